@@ -21,11 +21,12 @@ var (
 
 // VerifServe runs staticFileHandler (C50) for one request of product "p".
 // route 0: the product's rules are [a rule whose condition is false; BROWSE(root, defaultFile) with a true condition];
-// route 1: only another product has rules; route 2: the product's only rule has a false condition.
+// route 1: only another product has rules; route 2: the product's only rule has a false condition;
+// route 3: the rule table is loaded from ruleFile by loadConfData.
 // Returns status (-1 = BfeHandlerGoOn), body, Content-Length, Content-Encoding and the changes of the counters
 // FileBrowseNotExist / FileBrowseFallbackDefault plus the FileCurrentOpened gauge after the body was read and closed.
-func VerifServe(route int, method, urlPath, acceptEncoding string, hasAE bool, root, defaultFile string,
-	enableCompress bool) (int, []byte, string, string, [3]int64) {
+func VerifServe(route int, ruleFile string, method, urlPath, acceptEncoding string, hasAE bool, root, defaultFile string,
+	enableCompress bool) (int, []byte, string, string, [4]int64) {
 	verifOnce.Do(func() {
 		verifMod = NewModuleStatic()
 		verifMod.conf = &ConfModStatic{}
@@ -47,10 +48,20 @@ func VerifServe(route int, method, urlPath, acceptEncoding string, hasAE bool, r
 		conf.Config["p"] = &RuleList{decoy, browse}
 	case 1:
 		conf.Config["other"] = &RuleList{browse}
-	default:
+	case 2:
 		conf.Config["p"] = &RuleList{decoy}
 	}
-	m.ruleTable.Update(conf)
+	loaded := int64(0)
+	if route == 3 {
+		// the rule table comes from a rule file, through the module's reload entry; a file that does not load leaves
+		// the (emptied) table as it is
+		m.ruleTable.Update(StaticConf{Version: "empty", Config: ProductRules{}})
+		if err := m.loadConfData(url.Values{"path": []string{ruleFile}}); err == nil {
+			loaded = 1
+		}
+	} else {
+		m.ruleTable.Update(conf)
+	}
 	hreq := &bfe_http.Request{Method: method, URL: &url.URL{Path: urlPath}, Header: make(bfe_http.Header)}
 	if hasAE {
 		hreq.Header.Set("Accept-Encoding", acceptEncoding)
@@ -60,11 +71,11 @@ func VerifServe(route int, method, urlPath, acceptEncoding string, hasAE bool, r
 	ne0, fb0 := m.state.FileBrowseNotExist.Get(), m.state.FileBrowseFallbackDefault.Get()
 	ret, resp := m.staticFileHandler(req)
 	if ret == bfe_module.BfeHandlerGoOn && resp == nil {
-		return -1, nil, "", "", [3]int64{m.state.FileBrowseNotExist.Get() - ne0,
-			m.state.FileBrowseFallbackDefault.Get() - fb0, m.state.FileCurrentOpened.Get()}
+		return -1, nil, "", "", [4]int64{m.state.FileBrowseNotExist.Get() - ne0,
+			m.state.FileBrowseFallbackDefault.Get() - fb0, m.state.FileCurrentOpened.Get(), loaded}
 	}
 	if ret != bfe_module.BfeHandlerResponse || resp == nil {
-		return -2, nil, "", "", [3]int64{}
+		return -2, nil, "", "", [4]int64{}
 	}
 	var body []byte
 	if resp.Body != nil {
@@ -72,6 +83,6 @@ func VerifServe(route int, method, urlPath, acceptEncoding string, hasAE bool, r
 		resp.Body.Close()
 	}
 	return resp.StatusCode, body, resp.Header.Get("Content-Length"), resp.Header.Get("Content-Encoding"),
-		[3]int64{m.state.FileBrowseNotExist.Get() - ne0, m.state.FileBrowseFallbackDefault.Get() - fb0,
-			m.state.FileCurrentOpened.Get()}
+		[4]int64{m.state.FileBrowseNotExist.Get() - ne0, m.state.FileBrowseFallbackDefault.Get() - fb0,
+			m.state.FileCurrentOpened.Get(), loaded}
 }
